@@ -179,8 +179,9 @@ def leafVal : Node → Option Val
   | .expr (.mk (.prim p) .literal _ _ _) => valOfPrim p
   | _ => none
 
+/-- an unbounded range end: the bare `*` (a Wild leaf); the quoted string "*" is an ordinary value -/
 def isStarNode : Node → Bool
-  | .expr (.mk (.prim (.str s)) _ _ _ _) => s == [42]
+  | .expr (.mk (.prim (.str s)) .wild _ _ _) => s == [42]
   | _ => false
 
 def listVals : ExprList → Option (List Val)
@@ -463,8 +464,12 @@ mutual
 /-- equality of two confined expressions with numeric constants compared by VALUE -/
 def astEquiv : Ast → Ast → Bool
   | .num n1 r1, .num n2 r2 =>
+    -- the same exact decimal, or the same float64 (a float64 parameter and the decimal expansion of that float)
     (match decOfText r1, decOfText r2 with
      | some (m1, e1), some (m2, e2) => cmpDec (if n1 then -m1 else m1) e1 (if n2 then -m2 else m2) e2 == .eq
+     | _, _ => false) ||
+    (match parseFloat ((if n1 then [45] else []) ++ r1), parseFloat ((if n2 then [45] else []) ++ r2) with
+     | some f1, some f2 => f1.bits == f2.bits
      | _, _ => false)
   | .col a, .col c => a == c
   | .str a, .str c => a == c
@@ -483,6 +488,73 @@ def astListEquiv : AstList → AstList → Bool
   | .cons a t, .cons a' t' => astEquiv a a' && astListEquiv t t'
   | _, _ => false
 end
+
+mutual
+/-- normal form for comparing two confined expressions up to the equivalences PostgreSQL itself defines:
+    `x BETWEEN a AND b` is `x >= a AND x <= b`; AND / OR chains are re-associated to the right -/
+def normAst : Ast → Ast
+  | .between x lo hi => .and (.cmp .ge x lo) (.cmp .le x hi)
+  | .cmp op l r => .cmp op (normAst l) (normAst r)
+  | .inList x items => .inList (normAst x) (normAstList items)
+  | .similar x p => .similar (normAst x) (normAst p)
+  | .regex x p => .regex (normAst x) (normAst p)
+  | .and l r => .and (normAst l) (normAst r)
+  | .or l r => .or (normAst l) (normAst r)
+  | .not x => .not (normAst x)
+  | a => a
+def normAstList : AstList → AstList
+  | .nil => .nil
+  | .cons a t => .cons (normAst a) (normAstList t)
+end
+
+def flattenAnd : Ast → List Ast
+  | .and l r => flattenAnd l ++ flattenAnd r
+  | a => [a]
+def flattenOr : Ast → List Ast
+  | .or l r => flattenOr l ++ flattenOr r
+  | a => [a]
+
+mutual
+/-- equivalence of two normalised expressions: same flattened AND / OR chains, constants by value -/
+def astEquivN : Nat → Ast → Ast → Bool
+  | 0, _, _ => false
+  | fuel+1, a, c =>
+    match a, c with
+    | .and _ _, .and _ _ => listEquivN fuel (flattenAnd a) (flattenAnd c)
+    | .or _ _, .or _ _ => listEquivN fuel (flattenOr a) (flattenOr c)
+    | .not x, .not y => astEquivN fuel x y
+    | .cmp o l r, .cmp o' l' r' => o == o' && astEquivN fuel l l' && astEquivN fuel r r'
+    | .inList x items, .inList x' items' => astEquivN fuel x x' && astListEquiv items items'
+    | .similar x p, .similar x' p' => astEquivN fuel x x' && astEquivN fuel p p'
+    | .regex x p, .regex x' p' => astEquivN fuel x x' && astEquivN fuel p p'
+    | x, y => astEquiv x y
+def listEquivN : Nat → List Ast → List Ast → Bool
+  | _, [], [] => true
+  | 0, _, _ => false
+  | fuel+1, a :: as, c :: cs => astEquivN fuel a c && listEquivN fuel as cs
+  | _, _, _ => false
+end
+
+mutual
+def astSize : Ast → Nat
+  | .cmp _ l r => 1 + astSize l + astSize r
+  | .between x lo hi => 3 + astSize x + astSize lo + astSize hi
+  | .inList x items => 1 + astSize x + astListSize items
+  | .similar x p => 1 + astSize x + astSize p
+  | .regex x p => 1 + astSize x + astSize p
+  | .and l r => 1 + astSize l + astSize r
+  | .or l r => 1 + astSize l + astSize r
+  | .not x => 1 + astSize x
+  | _ => 1
+def astListSize : AstList → Nat
+  | .nil => 0
+  | .cons a t => astSize a + astListSize t
+end
+
+def astSame (a c : Ast) : Bool :=
+  let a' := normAst a
+  let c' := normAst c
+  astEquivN (2 * (astSize a' + astSize c') + 4) a' c'
 
 mutual
 /-- the query's values, left to right, as they must travel in the parameter list: raw leaf values (no columns),
@@ -517,7 +589,7 @@ def specC04 (tree : Expr) (inline psql : Bytes) (params : List Prim) : String :=
       "0:the parameters are not the query's values in left-to-right order with their kinds"
     else match parseSql inline, substParams params past with
       | some iast, some sast =>
-        if astEquiv iast sast then "1" else "0:substituting the parameters does not give the inline predicate: " ++ canon sast ++ " vs " ++ canon iast
+        if astSame iast sast then "1" else "0:substituting the parameters does not give the inline predicate: " ++ canon sast ++ " vs " ++ canon iast
       | none, _ => "0:the inline SQL is not one confined boolean expression"
       | _, none => "0:a parameter has no SQL constant form"
 
